@@ -233,15 +233,15 @@ func C13(c *sim.Ctx) {
 		}
 		k := cr.killInput
 		// ---- oracle 3: resumes at the height after the last completed commit
-		cur := fmt.Sprintf("start(h%d)", cr.dur.last+1)
+		// active = replay met, or the node appended, a start record it does not skip (label >= current height)
 		resumed := false
-		for _, l := range cr.recLoaded {
-			if l == cur {
+		for i, l := range cr.recLoaded {
+			if strings.HasPrefix(l, "start(h") && cr.recLoadH[i] >= cr.dur.last+1 {
 				resumed = true
 			}
 		}
 		for _, a := range cr.appends[cr.preAppendN:] {
-			if a.desc == cur {
+			if strings.HasPrefix(a.desc, "start(h") && a.h >= cr.dur.last+1 {
 				resumed = true
 			}
 		}
